@@ -14,6 +14,7 @@ import (
 	"sort"
 	"strings"
 	"sync"
+	"sync/atomic"
 	"testing"
 
 	"pgregory.net/rapid"
@@ -99,6 +100,7 @@ type Case struct {
 	sig    string
 	msg    string
 	replay bool
+	hung0  int64
 }
 
 func canon(c any) []byte {
@@ -117,7 +119,7 @@ func (r *Rec) Begin(c any) *Case {
 	if p := inflightPath(); p != "" {
 		_ = os.WriteFile(p, raw, 0o644)
 	}
-	return &Case{r: r, raw: raw}
+	return &Case{r: r, raw: raw, hung0: atomic.LoadInt64(&HungCloses)}
 }
 
 func (c *Case) Label(l string)  { c.labels = append(c.labels, l) }
@@ -146,6 +148,9 @@ func failDir() string {
 // End closes the case: counters, sample, in-flight marker, failure file.
 func (c *Case) End() {
 	r := c.r
+	if c.sig == "" && atomic.LoadInt64(&HungCloses) > c.hung0 {
+		c.Fail("env/close-hang", "TaskMaster.Close did not return within %v when the case's environment was closed (a task never ended)", CloseBound)
+	}
 	r.mu.Lock()
 	defer r.mu.Unlock()
 	if p := inflightPath(); p != "" {
